@@ -122,6 +122,9 @@ def _run_threads(py7zr, image, strat, sink, outdir, fail_name, nsessions=1):
         except Deadlock as e:
             dead = str(e)
         finally:
+            # a worker that is still alive when the caller has its result (or its exception) keeps writing behind the
+            # caller's back: recorded before the run is torn down
+            sched.leftover = [t.name for t in sched.threads[1:] if t.state != "done" and not t.daemon and not t.name.startswith("caller")]
             sched.shutdown()
     return results, dead, sched
 
@@ -341,6 +344,9 @@ def run_case(case):
             res["evals"] += 1
             if dead is not None:
                 viol("deadlock", "threads", "scheduler found no runnable thread: %s (strategy %r)" % (dead, strat), variant="threads")
+            elif getattr(sched, "leftover", None):
+                viol("workers_outlive_the_call", "threads", "extractall returned/raised while %d worker thread(s) were still running (schedule %d %r)" % (
+                    len(sched.leftover), si, strat["kind"]), variant="threads")
             for o in results:
                 if o is not None:
                     judge("threads", o, "schedule %d %r, %d decisions" % (si, strat["kind"], len(sched.choices)))
